@@ -3,7 +3,7 @@ Import ListNotations.
 From BB Require Import BN Brute SpaceFacts TrapFacts PercolateFacts AttractorFacts Diagram Invariants Checks Filter
   Strict PetriNet Control Meta FilterFacts PetriNetFacts TrappistFacts DiagramStruct DiagramSem1 DiagramCache
   DiagramDepth DiagramComplete Termination ControlFacts MetaFacts Candidates StrictFacts MinExpandFacts CandidatesFacts SymbolicTest SymbolicTestFacts Signed ReductionFacts ControlFacts2 Main Blocks BlocksFacts ObsFacts OwnerFacts CandidatesTerm
-  PartialOwner BlockMath BlockComplete ASeeds ASeedsFacts LogChecks SkipRule SkipRuleFacts Names NamesFacts Perm PermFacts SCC SCCFacts SCCStruct ControlFacts3 SCCTerm FilterSym Main2 StrategyFacts ControlFacts4 PyLib PySrc PySrcFacts SkipRuleFacts2 SCCComplete SCCAttr."""
+  PartialOwner BlockMath BlockComplete ASeeds ASeedsFacts LogChecks SkipRule SkipRuleFacts Names NamesFacts Perm PermFacts SCC SCCFacts SCCStruct ControlFacts3 SCCTerm FilterSym Main2 StrategyFacts ControlFacts4 PyLib PySrc PySrcFacts SkipRuleFacts2 SCCComplete SCCAttr BlockComplete2."""
 
 EX_NET = """
 (* non-vacuity: two bistable switches; x0'=x1, x1'=x0, x2'=x3, x3'=x2 *)
@@ -58,7 +58,8 @@ the 'at least one' clause holds: expand_scc_AttrServed / expand_scc_every_attrac
            ("filter_with_symbolic_test_exact", "compute_attractors_sym_exact", "the exactness of the filter holds with the real reachability procedure, for every heuristic tape"),
            ("node_seeds_exact", "node_seeds_exact", "one node, end to end: NFVS -> candidate pipeline (every option, limit, tape) -> filter with the real reachability procedure = exactly one seed per attractor of the node"),
            ("scc_strategy_loses_nothing", "expand_scc_AttrServed", "source-SCC strategy from a fresh diagram: every attractor has an expanded owner"),
-           ("scc_strategy_every_attractor_reported", "expand_scc_every_attractor_reported", "... so exact per-node seeds represent every attractor at least once (D15 is only about duplicates)")],
+           ("scc_strategy_every_attractor_reported", "expand_scc_every_attractor_reported", "... so exact per-node seeds represent every attractor at least once (D15 is only about duplicates)"),
+           ("block_expansion_one_to_one_from_any_plain_diagram", "expand_block_one_to_one_from", "after the D18 fix: block expansion started on any diagram reached by plain operations")],
  examples=EX_NET + """
 Example C01_example_attractors : length (attractors_b ex_sw) = 4.
 Proof. vm_compute. reflexivity. Qed.
@@ -132,7 +133,9 @@ statement has a theorem.""",
            ("scc_expansion_grows", "expand_scc_grows", None),
            ("scc_expansion_complete", "expand_scc_MinFound", "source-SCC strategy from a fresh diagram: no minimal trap space is missed"),
            ("scc_expansion_leaves_minimal", "expand_scc_LeafOK", "... and none is spurious"),
-           ("scc_expansion_all_expanded", "expand_scc_AllExpanded", "... and no stub is left behind")],
+           ("scc_expansion_all_expanded", "expand_scc_AllExpanded", "... and no stub is left behind"),
+           ("block_expansion_complete_from_any_plain_diagram", "expand_block_MinFound_from", "after the D18 fix block expansion needs no fresh diagram"),
+           ("block_expansion_leaves_minimal_from", "expand_block_LeafOK_from", None)],
  examples=EX_NET + """
 Example C03_example : length (min_traps_b ex_sw (top_space 4)) = 4.
 Proof. vm_compute. reflexivity. Qed.
@@ -371,7 +374,9 @@ unrestricted BFS/DFS completes to a Hierarchy (bfs_complete / dfs_complete).""",
            ("step_CacheOK", "step_CacheOK", None), ("step_extends", "step_extends", "nothing is ever removed or renumbered"),
            ("expand_one_raise_unchanged", "expand_one_raise_unchanged", None), ("bfs_complete", "bfs_complete", "True from an unrestricted BFS means everything is expanded"),
            ("dfs_complete", "dfs_complete", None), ("block_expansion_any_result", "expand_block_SWF", "also for block expansion, whatever it returns"),
-           ("block_expansion_extends", "expand_block_extends", None)],
+           ("block_expansion_extends", "expand_block_extends", None),
+           ("block_expansion_resumes", "expand_block_MinFound_from", "a block expansion that reports completion on a partially expanded diagram (e.g. after a size-limited run) has found every minimal trap space"),
+           ("block_expansion_resumes_attractors", "expand_block_AttrServed_from", None)],
  examples="")
 
 SPEC["C16"] = dict(title="Serialization and memory reclamation are transparent", comment="""
